@@ -6,7 +6,7 @@
    accepts is therefore [checker B B' = true -> equiv_block B B' = true], and a pair violating
    it is searched for a concrete distinguishing state. *)
 From Coq Require Import ZArith List Bool.
-From GV Require Import Ref.Word Ref.EVM Val.Equiv Val.EquivProofs.
+From GV Require Import Ref.Word Ref.EVM Val.Equiv Val.EquivProofs Model.Contain.
 Import ListNotations.
 
 Theorem C05_accepted_pairs_indistinguishable :
@@ -25,6 +25,37 @@ Proof.
   exact (equiv_block_sound x Hp Hw b1 b2 (Himp Hc) c Wc c1 R).
 Qed.
 Print Assumptions C05_accepted_pairs_indistinguishable.
+
+(* what the keep-or-revert driver (Model/Contain.v: analysis, search/rebuild and comparison may all
+   raise) inherits from the checker: for ANY reflexive relation R on blocks for which the checker's
+   verdict "equal" is sound, every block of the emitted contract is R-related to the input block at
+   the same position -- whatever the search returns and wherever an exception is raised.  With
+   R = observational equivalence this is the reason why C05 carries C01 for the shipped tool. *)
+Theorem C05_driver_sound_if_checker_sound :
+  forall (block spec : Type) (analysis : block -> res spec) (backend : block -> spec -> res block)
+         (verify : spec -> spec -> bool) (R : block -> block -> Prop),
+  (forall b, R b b) ->
+  (forall b c so sn, analysis b = Ok so -> analysis c = Ok sn -> verify so sn = true -> R b c) ->
+  forall bs, Forall2 R bs (optimize_contract block spec analysis backend verify bs).
+Proof.
+  intros block spec analysis backend verify R Hrefl Hsound bs. unfold optimize_contract.
+  induction bs as [|b bs IH]; cbn [map]; constructor; [|exact IH].
+  unfold process.
+  destruct (compare block spec analysis verify b (candidate block spec analysis backend b)) eqn:E; [|apply Hrefl].
+  unfold compare in E.
+  destruct (analysis (candidate block spec analysis backend b)) as [sn|] eqn:En; [|discriminate].
+  destruct (analysis b) as [so|] eqn:Eo; [|discriminate].
+  exact (Hsound b _ so sn Eo En E).
+Qed.
+Print Assumptions C05_driver_sound_if_checker_sound.
+
+(* non-vacuity: a sound checker (equality of specifications, analysis = value mod 10) and a search
+   that proposes a related block, an unrelated block and a raise *)
+Example C05_driver_example :
+  optimize_contract nat nat (fun b => if Nat.eqb b 7 then Raise else Ok (Nat.modulo b 10))
+     (fun b s => if Nat.eqb b 12 then Ok 2 else if Nat.eqb b 13 then Ok 4 else Raise) Nat.eqb [12; 13; 7; 15]
+  = [2; 13; 7; 15].
+Proof. reflexivity. Qed.
 
 (* the validator is reflexive on well-sorted event-free code (so it can play the role of
    "checker(B,B) = equal" as a reference) *)
